@@ -235,3 +235,79 @@ Section Shard.
     - assumption.
   Qed.
 End Shard.
+
+(* ------------------------------------------------------------------ client manager *)
+Definition cm_inv (m : cmgr) : Prop := forall a c, alookup String.eqb a m = Some c -> o_addr c = a.
+
+Lemma cm_get_spec m r :
+  cm_inv m ->
+  cm_inv (fst (cm_get m r)) /\ o_addr (snd (cm_get m r)) = i_addr r /\
+  alookup String.eqb (i_addr r) (fst (cm_get m r)) = Some (snd (cm_get m r)) /\
+  (forall a c, alookup String.eqb a m = Some c -> alookup String.eqb a (fst (cm_get m r)) = Some c).
+Proof.
+  intro Hi. unfold cm_get. destruct (alookup String.eqb (i_addr r) m) as [c|] eqn:E; simpl.
+  - repeat split; auto.
+  - repeat split.
+    + intros a c. simpl. destruct (String.eqb a (i_addr r)) eqn:Ea.
+      * intro H. inversion H. simpl. apply String.eqb_eq in Ea. congruence.
+      * apply Hi.
+    + rewrite String.eqb_refl. reflexivity.
+    + intros a c H. simpl. destruct (String.eqb a (i_addr r)) eqn:Ea; [|assumption].
+      apply String.eqb_eq in Ea. congruence.
+Qed.
+
+Section NetProofs.
+  Variables S Cmd R : Type.
+  Variable exec1 : S -> Cmd -> S * R.
+
+  (* a call of wrapper(addr): reply and effect are those of the command on server(addr); every other server untouched;
+     the client it used stays the client of that address for ever after *)
+  Lemma wcall_spec m (n : net S) r cmd :
+    cm_inv m ->
+    let res := wcall exec1 (m, n) r cmd in
+    snd res = snd (exec1 (n (i_addr r)) cmd) /\
+    snd (fst res) (i_addr r) = fst (exec1 (n (i_addr r)) cmd) /\
+    (forall a, a <> i_addr r -> snd (fst res) a = n a) /\
+    cm_inv (fst (fst res)) /\
+    (forall a c, alookup String.eqb a m = Some c -> alookup String.eqb a (fst (fst res)) = Some c).
+  Proof.
+    intro Hi. unfold wcall. simpl. destruct (cm_get_spec m r Hi) as [Hi' [Ha [_ Hst]]].
+    destruct (cm_get m r) as [m' c]. simpl in *. unfold send. rewrite Ha.
+    destruct (exec1 (n (i_addr r)) cmd) as [s' x]. simpl.
+    repeat split; auto.
+    - rewrite String.eqb_refl. reflexivity.
+    - intros a Hne. apply String.eqb_neq in Hne. rewrite Hne. reflexivity.
+  Qed.
+
+  Lemma wcalls_isolated h : forall m (n : net S) a,
+    cm_inv m -> (forall r cmd, In (r, cmd) h -> i_addr r <> a) ->
+    snd (fst (wcalls exec1 (m, n) h)) a = n a.
+  Proof.
+    induction h as [|[r cmd] t IH]; intros m n a Hi Hno; simpl; [reflexivity|].
+    destruct (wcall_spec m n r cmd Hi) as [_ [_ [Hoth [Hi' _]]]].
+    destruct (wcall exec1 (m, n) r cmd) as [[m1 n1] x]. simpl in *.
+    specialize (IH m1 n1 a Hi' (fun r0 c0 H => Hno r0 c0 (or_intror H))).
+    destruct (wcalls exec1 (m1, n1) t) as [[m2 n2] xs]. simpl in *.
+    rewrite IH. apply Hoth. intro E. exact (Hno r cmd (or_introl eq_refl) (eq_sym E)).
+  Qed.
+End NetProofs.
+
+(* ------------------------------------------------------------------ script cache *)
+Lemma alookup_aset_str (k s v : string) (m : list (string * string)) :
+  alookup String.eqb s (aset String.eqb k v m) = if String.eqb k s then Some v else alookup String.eqb s m.
+Proof.
+  unfold aset. simpl. rewrite (String.eqb_sym s k). destruct (String.eqb k s) eqn:E; [reflexivity|].
+  induction m as [|[k' v'] r IH]; simpl; [reflexivity|].
+  destruct (String.eqb k k') eqn:E2.
+  - apply String.eqb_eq in E2. subst k'. rewrite (String.eqb_sym s k), E. exact IH.
+  - simpl. destruct (String.eqb s k'); [reflexivity|exact IH].
+Qed.
+
+Lemma sc_last_write h : forall c acc s,
+  sc_get c s = acc ->
+  sc_get (sc_run c h) s = fold_left (fun acc p => if String.eqb (fst p) s then Some (snd p) else acc) h acc.
+Proof.
+  induction h as [|[k v] t IH]; intros c acc s H; simpl; [assumption|].
+  apply IH. unfold sc_get, sc_set. rewrite alookup_aset_str. simpl.
+  destruct (String.eqb k s); [reflexivity|exact H].
+Qed.
